@@ -337,6 +337,7 @@ RULES = [
 def rule_inventory(ctx):
     from . import inventory
     inventory.check(ctx, ['file:priority_queue', 'file:indexed_priority_queue', 'keyed-queue-ops'])
+    inventory.check_narrowing(ctx)
 
 
 RULES.append(("C20.f", "state-mutation inventory: no new site that changes the content of the state this property rests on", rule_inventory))
